@@ -79,6 +79,19 @@ func c08Gen(t *rapid.T) c08Case {
 		return s
 	})
 	c.Steps = rapid.SliceOfN(step, 1, 30).Draw(t, "steps")
+	if rapid.IntRange(0, 11).Draw(t, "throttleTemplate") == 5 && n >= 2 {
+		// Aimed history for the RFC 7540 scheduler with write throttling: a large response
+		// on a stream whose parent is open but blocked on its own small window. Every Pop
+		// of the child raises the throttle limit by 1024, so after some twenty DATA frames
+		// the scheduler offers more than SETTINGS_MAX_FRAME_SIZE at once.
+		c.Sched = 4
+		c.InitWin = 100
+		c.MaxFrame = 16384
+		c.Resps[0] = c08Resp{Chunks: []c08Chunk{{N: 5000, Flush: true}}}
+		c.Resps[1] = c08Resp{Chunks: []c08Chunk{{N: 100000, Flush: true}, {N: 100000}, {N: 100000}}}
+		pre := []c08Step{{Kind: "open", K: 0}, {Kind: "open", K: 1, V: 1}, {Kind: "wuconn", V: 1 << 20}, {Kind: "wu", K: 1, V: 1 << 20}}
+		c.Steps = append(pre, c.Steps...)
+	}
 	return c
 }
 
